@@ -119,7 +119,7 @@ def step (d : DState) (opLine : String) (impl : String) : DState × StepOut :=
           let e : C05.Ev := ⟨a, natArg ms, natArg l, d.mon.idx, d.mon.idx⟩
           let evs := d.mon.evs ++ [e]
           let raw := natArg l / 2 ^ natArg b
-          let gevs := if a = 0 then d.mon.gevs ++ [⟨d.mon.idx, d.mon.idx, natArg ms, raw - c, raw⟩] else d.mon.gevs
+          let gevs := if a = 0 then d.mon.gevs ++ [⟨d.mon.idx, d.mon.idx, natArg ms, raw - c, raw, natArg l⟩] else d.mon.gevs
           ({ d.mon with evs := evs, gevs := gevs, idx := d.mon.idx + 1 },
             (if a = 0 && !(C01.check 18 gevs) then
               [s!"sig=C01.global-timestamps-not-unique-increasing ms={e.ms} logical={e.logical}"] else []) ++
@@ -144,7 +144,7 @@ def step (d : DState) (opLine : String) (impl : String) : DState × StepOut :=
       let evs := gs.map (·.1)
       let gevs := (gs.filter (fun (p : C05.Ev × Nat) => p.1.alloc = 0)).map (fun (p : C05.Ev × Nat) =>
         let raw := p.1.logical / 2 ^ p.2
-        (⟨p.1.start, p.1.finish, p.1.ms, raw - 1, raw⟩ : C01.Ev))
+        (⟨p.1.start, p.1.finish, p.1.ms, raw - 1, raw, p.1.logical⟩ : C01.Ev))
       let fails :=
         (if (parts.headD "").startsWith "grants" then [] else [s!"sig=C05.cluster-run-failed {(parts.headD "")}"]) ++
         (if gs.all (fun (p : C05.Ev × Nat) => decide (p.1.logical < 2 ^ 18)) then [] else
@@ -168,7 +168,7 @@ def step (d : DState) (opLine : String) (impl : String) : DState × StepOut :=
       let c := natArg cnt
       let gevs := d.mon.gevs ++ (gs.filter (fun (p : C05.Ev × Nat) => p.1.alloc = 0)).map (fun (p : C05.Ev × Nat) =>
         let raw := p.1.logical / 2 ^ p.2
-        (⟨base + (p.1.start - minT), base + (p.1.finish - minT), p.1.ms, raw - c, raw⟩ : C01.Ev))
+        (⟨base + (p.1.start - minT), base + (p.1.finish - minT), p.1.ms, raw - c, raw, p.1.logical⟩ : C01.Ev))
       let fails :=
         (if gs.all (fun (p : C05.Ev × Nat) => decide (p.1.logical < 2 ^ 18)) then [] else
           [s!"sig=C01.global-or-local-logical-out-of-range count={c}"]) ++
@@ -190,7 +190,7 @@ def step (d : DState) (opLine : String) (impl : String) : DState × StepOut :=
       let c := natArg cnt
       let gevs := d.mon.gevs ++ (gs.filter (fun (p : C05.Ev × Nat) => p.1.alloc = 0)).map (fun (p : C05.Ev × Nat) =>
         let raw := p.1.logical / 2 ^ p.2
-        (⟨base + (p.1.start - minT), base + (p.1.finish - minT), p.1.ms, raw - c, raw⟩ : C01.Ev))
+        (⟨base + (p.1.start - minT), base + (p.1.finish - minT), p.1.ms, raw - c, raw, p.1.logical⟩ : C01.Ev))
       let fails :=
         (if C01.check 18 gevs then [] else [s!"sig=C01.global-timestamps-not-unique-increasing-in-burst n={gs.length}"]) ++
         (if C05.check evs then [] else [s!"sig=C05.order-or-uniqueness-in-burst n={gs.length}"]) ++
